@@ -58,6 +58,11 @@ CLAIMED = {
    text="Layered structural necessary conditions decided at every site: the evaluation-depth test dominates dispatch and every exit after the increment decrements; the while-loop counter advances on every way around the loop and its limit test dominates the body; every VM has a positive step bound and runLoop enforces it; both HTTP dispatch entries recover to a 500; every goroutine of interpreter/VM that can run user code recovers; no unguarded interface ==, unchecked assertion or unguarded integer division in the engines; no Go error/panic text reaches a response whose status is not a constant 4xx, 5xx interpreter responses are constant, execution errors end in a status writer, and route results are marshalled before the status is committed.",
    note="Does not cover index/nil panics in general, stack exhaustion in libraries, wall-clock bounds, limit values. Trusted: go/types, go/ssa.",
    ref="DESIGN.md §3 C04"),
+ "C19": dict(
+   technique="static analysis: ordering/typestate path queries on the dev-server swap and the library reload manager, guard-edge rules on compile/reload results, must-lockset, must-pass-through in the poller",
+   text="Structural necessary conditions decided at every site: in startServer no failing exit and no missing m.server store after the old server's Shutdown (all fallible steps precede the teardown) and the prepared server is started; reload() is never fatal; in ReloadManager.handleChanges a compile error never reaches Reload/SetState and is reported as failure, Reload installs exactly the compile result, state is restored only after a successful Reload, and compile+install form one critical section under rm.mu; server/connection/hash tables only under their mutexes; the poller hashes every present file on every poll.",
+   note="Does not cover port-release timing, fsnotify/polling and debounce behaviour, request continuity. Trusted: go/types, go/ssa.",
+   ref="DESIGN.md §3 C19"),
 }
 
 NA_REASONS = {}
